@@ -173,4 +173,19 @@ theorem readDuration_error (s s' : MmlState) (hs : Sane s) (e : Err) (h : readDu
             rw [ht] at h
             cases h
 
+/-- is this outcome the `InputError(msg, ref)`? (for the examples) -/
+def errIs {α : Type} (x : Res α) (msg : String) (ref : Ref) : Bool :=
+  match x with
+  | .err (.input m r) _ => m == msg && r == ref
+  | _ => false
+
+theorem errIs_spec {α : Type} (x : Res α) (msg : String) (ref : Ref) (h : errIs x msg ref = true) :
+    ∃ s', x = .err (.input msg ref) s' := by
+  unfold errIs at h
+  split at h
+  · simp only [Bool.and_eq_true, beq_iff_eq] at h
+    obtain ⟨rfl, rfl⟩ := h
+    exact ⟨_, rfl⟩
+  · cases h
+
 end Ctrmml.DiagCol
